@@ -74,6 +74,10 @@ class World:
             scen['small_send_buffer'] = rng.choice([5, 12, 40])
         if fault in ('none', 'error-replies') and rng.random() < 0.35:
             scen['lazy_connect'] = True
+            if rng.random() < 0.3:
+                scen['drop_in_handshake'] = True
+                scen['fault'] = 'peer-drop'
+                scen['fault_at'] = 99
         if rng.random() < 0.25:
             # the peer's replies arrive in two pieces, the second after a pause that may be longer than the receiver's
             # socket time-out (1 s): the bytes already received must not be lost
@@ -145,6 +149,14 @@ class World:
                     if action == '*IDN?':
                         sock.peer_send(b'ISSE&SINE2020,SECoP,V2019-09-16,v1.0\n')
                     elif action == 'describe':
+                        if scen.get('drop_in_handshake') and not state.get('handshake_dropped'):
+                            # the connection is lost in the middle of the start-up exchange of connect()
+                            state['handshake_dropped'] = True
+                            state['drop_time'] = s.now
+                            state['peer_dropped'] = True
+                            self.sockmod.listeners.clear()
+                            sock.peer_close()
+                            return
                         sock.peer_send(encode('describing', '.', DESC))
                     elif action == 'activate':
                         sock.peer_send(encode('update', 'm:value', [0.0, {'t': 1.0}]))
@@ -315,10 +327,13 @@ class World:
     def reconnect_class(self, first_drop, rec_):
         """did somebody (re)connect between the drop and the caller's return?  connect() replaces the request
         tables - a different mechanism from a plain missing wake-up"""
+        if getattr(self, 'cur_state', {}).get('handshake_dropped'):
+            return 'in-the-start-up-exchange'         # the connection was lost while connect() was waiting for the description
         return 'during-reconnect' if any(first_drop <= a[0] <= rec_['t_ret'] for a in self.sockmod.attempts[1:]) else 'no-reconnect'
 
     def judge(self, s, scen, state, results, info, case):
         r = self.r
+        self.cur_state = state
         if 'connect_error' in info:
             r.violation('C11/connect-fails', info['connect_error'], case)
             return
